@@ -109,6 +109,9 @@ class C02(Prop):
 
         # 1. learn the validators like a client would
         first = self._request(plan, ctx, "GET", [], rel)
+        if first.get("complete") is False:
+            fail("response-never-terminated|GET|%s" % first["status"], "plain GET: no event with more_body false")
+            return
         if first.get("hang") or first.get("exc"):
             fail("plain-get-failed|%s" % type(first.get("hang") or first.get("exc")).__name__, repr(first.get("hang") or first.get("exc")))
             return
@@ -142,6 +145,10 @@ class C02(Prop):
                 return
             if r.get("exc"):
                 fail("exception|%s|%s" % (name, type(r["exc"]).__name__), repr(r["exc"]))
+                return
+            if r.get("complete") is False:
+                # truthful framing: the call returned but the body was never terminated (no final body event)
+                fail("response-never-terminated|%s|%s" % (name, r["status"]), "%d body bytes in %d emissions, no event with more_body false" % (len(r["body"]), r["emissions"]))
                 return
         ctx.notes["emissions"] = get["emissions"]
         ctx.ev("get", get["status"], len(get["body"]), get["emissions"], head["status"], len(head["body"]))
